@@ -48,6 +48,7 @@ def class_facts(design, cn):
           if s[1]["inst"] == "": blk_drv.setdefault(s[1]["sig"], []).append((b["name"], s[1]))
         elif s[0] == "if": walk(s[2]); walk(s[3])
         elif s[0] == "for": walk(s[5])
+        elif s[0] == "call": walk([f for f in c.get("funcs", []) if f["name"] == s[1]][0]["stmts"])
     walk(b["stmts"])
   for dst, src in c["conns"]:
     if dst["inst"] == "": net_drv.setdefault(dst["sig"], []).append(dst)
